@@ -199,6 +199,24 @@ func (net *Network) Weight(e graph.Edge) float64 {
 	panic("route: attempting to find an edge that is not in the graph")
 }
 
+// weightedNetwork adapts a Network to the path.Weighted interface so that
+// path.AStar uses the link weights instead of a uniform cost for every link.
+type weightedNetwork struct {
+	*Network
+}
+
+// Weight returns the weight of the link between the nodes with IDs xid and yid.
+func (net weightedNetwork) Weight(xid, yid int64) (w float64, ok bool) {
+	if xid == yid {
+		return 0, true
+	}
+	e, ok := net.neighbors[xid][yid]
+	if !ok {
+		return math.Inf(1), false
+	}
+	return net.Network.Weight(e), true
+}
+
 type edge struct {
 	geom.LineString
 	start, end          *node
@@ -260,7 +278,7 @@ func (net Network) ShortestRoute(from, to geom.Point) (
 	endNode := net.nodes.NearestNeighbor(to).(*node)
 	startDistance = op.Distance(from, startNode.Point)
 	endDistance = op.Distance(to, endNode.Point)
-	shortest, _ := path.AStar(startNode, endNode, net, net.costHeuristic)
+	shortest, _ := path.AStar(startNode, endNode, weightedNetwork{&net}, net.costHeuristic)
 	nodes, _ := shortest.To(endNode.ID())
 	for i := 0; i < len(nodes)-1; i++ {
 		e, ok := net.neighbors[nodes[i].ID()][nodes[i+1].ID()]
